@@ -321,7 +321,7 @@ func main() {
 			for _, p := range progs[:1] {
 				for _, ks := range keyLists {
 					for _, ls := range stores.LabelChoices(ks, vals) {
-						for rot := 0; rot < 6; rot += c.Pick(2, 1) {
+						for rot := 0; rot < 7; rot += c.Pick(2, 1) {
 							singles = append(singles, stores.MetricSpec{Shape: sh, Name: n, Prog: p, Keys: ks, Labels: ls, ValRot: rot})
 							if sh.Type == metrics.Buckets && n == "foo" {
 								singles = append(singles, stores.MetricSpec{Shape: sh, Name: n, Prog: p, Keys: ks, Labels: ls, ValRot: rot, ShuffledRanges: true})
@@ -347,7 +347,7 @@ func main() {
 						if c.Quick() && li > 2 && len(ls) < 2 {
 							continue
 						}
-						red = append(red, stores.MetricSpec{Shape: sh, Name: n, Prog: p, Keys: ks, Labels: ls, ValRot: (li + len(n)) % 6})
+						red = append(red, stores.MetricSpec{Shape: sh, Name: n, Prog: p, Keys: ks, Labels: ls, ValRot: (li + len(n)) % 7})
 					}
 				}
 			}
